@@ -109,6 +109,33 @@ def cmd_check(a):
     return check(a.prop, tier, seed)
 
 
+def cmd_soak(a):
+    """Run N scenarios and print every failure signature with its count (no verdict, no evidence)."""
+    import shutil
+    from collections import Counter
+
+    from vsim.engine import launch
+    os.environ.setdefault("VSIM_MIN_BUDGET", "0")
+    os.environ.setdefault("VSIM_REPLAY_DIR", "/tmp/vsim-soak-replays")
+    outs, herr, outdir = launch(a.prop, a.tier, a.seed, runs=a.runs, wall_limit=a.wall)
+    c = Counter()
+    first = {}
+    for o in outs:
+        for f in o["failures"]:
+            c[f["sig"]] += f["count"]
+            first.setdefault(f["sig"], f.get("replay"))
+    for sig, n in sorted(c.items()):
+        print(f"{n:6d}  {sig}  {first[sig]}")
+    print(f"runs={sum(len(o['runs']) for o in outs)} signatures={len(c)} harness_errors={len(herr) + sum(len(o['harness']) for o in outs)}")
+    for h in herr[:5]:
+        print("HARNESS", json.dumps(h)[:800])
+    for o in outs:
+        for h in o["harness"][:2]:
+            print("HARNESS", json.dumps(h)[:800])
+    shutil.rmtree(outdir, ignore_errors=True)
+    return 0
+
+
 def cmd_selftest(a):
     from vsim.selftest import selftest
     return selftest(a.props.split(","), a.seeds)
@@ -132,12 +159,18 @@ def main():
     p = sub.add_parser("replay")
     p.add_argument("path")
     p.add_argument("-v", "--verbose", action="store_true")
+    p = sub.add_parser("soak")
+    p.add_argument("prop")
+    p.add_argument("--runs", type=int, default=320)
+    p.add_argument("--seed", type=int, default=1)
+    p.add_argument("--tier", default="quick")
+    p.add_argument("--wall", type=float, default=3 * 3600)
     p = sub.add_parser("selftest")
     p.add_argument("--props", default="C07,C08,C11,C20")
     p.add_argument("--seeds", type=int, default=48)
     a = ap.parse_args()
     return {"check": cmd_check, "batch": cmd_batch, "exec": cmd_exec, "replay": cmd_replay,
-            "selftest": cmd_selftest}[a.cmd](a)
+            "selftest": cmd_selftest, "soak": cmd_soak}[a.cmd](a)
 
 
 if __name__ == "__main__":
